@@ -215,3 +215,92 @@ Theorem C17_one_variable_per_field :
   (length (d_vars e) + length new <= length (d_vars (fst (append vr nc4 o e orig new))))%nat.
 Proof. exact one_variable_per_field. Qed.
 Print Assumptions C17_one_variable_per_field.
+
+(* ---- third pass -------------------------------------------------------------------------- *)
+(* The mode argument: 'a' and its documented alias 'r+' are the accepted
+   spellings of append mode, and the outcome of a call - file and result - is
+   the same for every accepted spelling; so C17_preserve and all the other
+   theorems about [append] hold for either.  Any other spelling is rejected
+   with the file as it was. *)
+Theorem C17_append_spellings :
+  forall sp, parse_mode sp = Some ModeA <-> sp = "a" \/ sp = "r+".
+Proof. exact append_spellings. Qed.
+Print Assumptions C17_append_spellings.
+
+Theorem C17_mode_spelling_irrelevant :
+  forall vr sp1 sp2 nc4 o e orig new,
+  parse_mode sp1 = Some ModeA -> parse_mode sp2 = Some ModeA ->
+  write_call vr sp1 nc4 o e orig new = write_call vr sp2 nc4 o e orig new.
+Proof. exact mode_spelling_irrelevant. Qed.
+Print Assumptions C17_mode_spelling_irrelevant.
+
+Theorem C17_mode_alias :
+  forall vr nc4 o e orig new,
+  write_call vr "r+" nc4 o e orig new = write_call vr "a" nc4 o e orig new /\
+  fst (write_call vr "r+" nc4 o e orig new) = fst (append vr nc4 o e orig new).
+Proof. exact mode_alias. Qed.
+Print Assumptions C17_mode_alias.
+
+Theorem C17_alias_preserves :
+  forall vr sp nc4 o e orig new,
+  parse_mode sp = Some ModeA -> extends e (fst (write_call vr sp nc4 o e orig new)).
+Proof. exact alias_preserves. Qed.
+Print Assumptions C17_alias_preserves.
+
+Theorem C17_bad_mode_untouched :
+  forall vr sp nc4 o e orig new,
+  parse_mode sp = None -> write_call vr sp nc4 o e orig new = (e, CBadMode).
+Proof. exact bad_mode_untouched. Qed.
+Print Assumptions C17_bad_mode_untouched.
+
+(* seeded variant (alias validated but not resolved): global attributes
+   rewritten, a request that has to be refused carried out *)
+Theorem C17_mode_alias_unresolved_refuted :
+  d_gatts (write_call_unresolved new_code "r+" true no_opts file_acdd [fz_plain] [commented2])
+    = [("Conventions", "CF-1.11"); ("comment", "hello")] /\
+  d_gatts (fst (write_call new_code "r+" true no_opts file_acdd [fz_plain] [commented2])) = d_gatts file_acdd /\
+  write_call_unresolved new_code "a" true no_opts file_acdd [fz_plain] [commented2]
+    = fst (write_call new_code "r+" true no_opts file_acdd [fz_plain] [commented2]) /\
+  snd (write_call new_code "r+" true no_opts file_z [fz_plain] [dsg]) = CAppend Refused /\
+  map v_name (d_vars (write_call_unresolved new_code "r+" true no_opts file_z [fz_plain] [dsg])) = ["z"; "tb"; "p"].
+Proof. exact mode_alias_unresolved_refuted. Qed.
+Print Assumptions C17_mode_alias_unresolved_refuted.
+
+(* C17-fix3-2.  With every variable and dimension name of the dataset
+   registered as in use between the two passes, no variable created by an
+   append takes one of these names - whatever the re-read returned (no
+   [covers] hypothesis): a domain variable, or a variable that is part of no
+   field, can not be collided with. *)
+Theorem C17_dataset_names_not_reused :
+  forall vr nc4 o e orig new,
+  fx_dimname vr = true -> fx_names vr = true ->
+  exists vv, d_vars (fst (append vr nc4 o e orig new)) = d_vars e ++ vv /\
+             forall w, In w vv -> ~ In (v_name w) (file_names e).
+Proof. exact dataset_names_not_reused. Qed.
+Print Assumptions C17_dataset_names_not_reused.
+
+Theorem C17_dataset_names_head3_refuted :
+  snd (append head3_code true no_opts file_z [] [fz_plain]) = Failed /\
+  snd (append new_code true no_opts file_z [] [fz_plain]) = Done /\
+  map v_name (d_vars (fst (append new_code true no_opts file_z [] [fz_plain]))) = ["z"; "tb"; "z_1"; "tb_1"].
+Proof. exact dataset_names_head3_refuted. Qed.
+Print Assumptions C17_dataset_names_head3_refuted.
+
+(* C17-fix3-4.  In the dry run the names are those of the dataset and are
+   registered as they are (a variable or dimension met a second time, through
+   another construct, is not given a name the dataset does not have); the
+   appending pass still allocates fresh names (C17_netcdf_name_fresh). *)
+Theorem C17_dry_run_keeps_names :
+  forall vr b s, fx_norename vr = true ->
+  netcdf_name_m (dry_mode vr) b s = (b, upd_names (cons b) s) /\
+  netcdf_name_m (post_mode vr) b s = netcdf_name b s.
+Proof. exact dry_run_keeps_names. Qed.
+Print Assumptions C17_dry_run_keeps_names.
+
+Theorem C17_dry_run_rename_refuted :
+  refs_of (fst (append renaming_code true no_opts file_ts [f_ts "q" 1] [f_ts "r" 2])) "r" = [("coordinates", [("", "time_1")])] /\
+  lookup_var (fst (append renaming_code true no_opts file_ts [f_ts "q" 1] [f_ts "r" 2])) "time_1" = None /\
+  refs_of (fst (append new_code true no_opts file_ts [f_ts "q" 1] [f_ts "r" 2])) "r" = [("coordinates", [("", "time")])] /\
+  map v_name (d_vars (fst (append new_code true no_opts file_ts [f_ts "q" 1] [f_ts "r" 2]))) = ["time"; "q"; "r"].
+Proof. exact dry_run_rename_refuted. Qed.
+Print Assumptions C17_dry_run_rename_refuted.
